@@ -146,6 +146,17 @@ def run_oracle(pid, mode, payload, timeout=600):
         return {"error": "unparsable oracle output: " + p.stdout[-500:]}
 
 
+def evidence_dir():
+    """/verif/evidence for runs against /repo; a scratch directory for self-test runs against a
+    mutated copy (VF_REPO), so that they never overwrite the evidence of the real tree."""
+    if os.environ.get("VF_REPO", "/repo") != "/repo":
+        d = os.path.join(os.environ["VF_REPO"], ".vf_evidence")
+    else:
+        d = os.path.join(VERIF, "evidence")
+    os.makedirs(d, exist_ok=True)
+    return d
+
+
 def undecided_fallback(pid, tier, seed, known, log):
     """The deductive part could not decide (source outside the verified subset).  The
     executable postcondition is still evaluated on the real code over the bounded family: a
@@ -176,6 +187,11 @@ def check_property(pid, tier="quick", seed=0, verbose=True):
     known = load_known(pid)
     baseline = load_baseline().get(pid, {})
     status = {"exit": 0}
+    if not os.path.exists(os.path.join(VERIF, "contracts", pid + ".py")):
+        # no deductive contracts for this property: a bounded stand-in (labelled as such)
+        from .bounded import check_bounded
+
+        return check_bounded(pid, tier, seed, log)
     try:
         mod = importlib.import_module(f"contracts.{pid}")
         prop = mod.P
@@ -208,7 +224,7 @@ def check_property(pid, tier="quick", seed=0, verbose=True):
             pv = VC(f"{ident}/probe.false_is_not_provable", s_.to_smt2(), "probe", ident, required=False, note="vacuity probe: must not be unsat")
             pv.is_probe = True
             vcs.append(pv)
-    tasks = [(i, v.smt2, (3000 if getattr(v, "is_probe", False) else tmo), ("probe" if getattr(v, "is_probe", False) else True)) for i, v in enumerate(vcs)]
+    tasks = [(i, v.smt2, (3000 if getattr(v, "is_probe", False) else tmo), ("probe" if getattr(v, "is_probe", False) else (True if v.required else "phase1"))) for i, v in enumerate(vcs)]  # informational VCs: fast strategies only
     t0 = time.time()
     results = solve_all(tasks)
     solver_time = sum(r.get("total_time", 0) for r in results)
@@ -400,6 +416,6 @@ def write_evidence(pid, tier, seed, prop, vcs, info, wall, undecided=None, solve
     }
     if extra:
         ev["coverage"].update(extra)
-    with open(os.path.join(VERIF, "evidence", f"{pid}.json"), "w") as f:
+    with open(os.path.join(evidence_dir(), f"{pid}.json"), "w") as f:
         json.dump(ev, f, indent=1, default=str)
         f.write("\n")
